@@ -133,6 +133,10 @@ def schema_contracts(cs, tier):
     for idn in g.sbc_nested_roots:
         li = by_ident[idn]
         L = li.origin
+        if any(not (gl.fields or gl.groups or gl.data) for gl in all_groups(L)):
+            # a group whose entries have no members: the generated entry constructor advances the cursor itself, before on_entry validates the
+            # block; the precondition "cursor at the entry start" of the contracts below does not describe that protocol (not covered)
+            continue
         tops = [group_contracts(gl) for gl in L.groups]
         # message level: size_bytes_checked(view, n) with the top-level groups through their contracts
         f = u.root("r_%s_sbc" % idn)
